@@ -248,7 +248,16 @@ def rule_flow_unsync(ctx):
                     via = 'accumulator'
                 if not ws_ok:
                     # victims: the aggregate computed by the admission scan is subtracted instead
-                    ws_ok = any(s == -1 and isinstance(a, tuple) and a and a[0] == 'payload' and 'Admitted' in str(a[2]) for s, a in fws)
+                    # (a projection of the admission scan's result; that it is the sum of the victims' weights is FLOW-admit-sums)
+                    adm_fn = named(ctx, 'unsync.admit')
+
+                    def _of_admission(a):
+                        a = strip_cast(a)
+                        proj = False
+                        while isinstance(a, tuple) and a and a[0] in ('payload', 'fld'):
+                            a = a[1]; proj = True
+                        return proj and isinstance(a, tuple) and a and a[0] == 'call' and a[1] == adm_fn
+                    ws_ok = any(s == -1 and _of_admission(a) for s, a in fws)
                     via = 'admission-aggregate'
                 r.instance(function=nid, event='removal', entry=fmt(E)[:60], via=via, weighted_size=fmt(ws)[:90] if ws else None,
                            entry_count=fmt(ec)[:60] if ec else None, weight_given_back=ws_ok, count_given_back=ec_ok)
@@ -404,9 +413,19 @@ def rule_flow_admit_sums_unsync(ctx):
     seen = 0
     for p in paths:
         ret = p.ret
-        if not (isinstance(ret, tuple) and ret[0] == 'aggr' and ret[2] == 'Admitted'):
+        if not (isinstance(ret, tuple) and ret and ret[0] == 'aggr'):
             continue
-        for c in ret[3]:
+
+        # the verdict that carries data (an enum variant with fields, or Some(record)): its leaves are the victim list and the aggregate(s)
+        def _leaves(t_):
+            if isinstance(t_, tuple) and t_ and t_[0] == 'aggr':
+                for ch in t_[3]:
+                    yield from _leaves(ch)
+            else:
+                yield t_
+        for c in _leaves(ret):
+            if isinstance(c, tuple) and c and c[0] == 'coll':
+                continue
             f = lin(c)
             if len(f) == 1 and isinstance(f[0][1], tuple) and f[0][1][0] in ('call', 'unk', 'local', 'default') and not f[0][1][0] == 'c':
                 # the victim node list (SmallVec) -- not an integer aggregate
@@ -524,8 +543,7 @@ def rule_flow_sync(ctx):
         raise CheckFailure('FLOW-counters(sync): upsert role not found (no callee of the write-op consumer receives the fields of WriteOp::Upsert)')
     nid = ur['nid']
     b = prog.bodies[nid]
-    pidx = {'entry': ur['entry']}
-    P_old, P_new = ('param', ur['old']), ('param', ur['new'])
+    P_old, P_new = ur['old_t'], ur['new_t']
     sx = ctx.symex(inline_depth=3, loop_visits=2,
                    inline_pred=lambda n, bb, d: False if n in roles else None)
     try:
@@ -586,7 +604,7 @@ def rule_flow_sync(ctx):
     # every path of the upsert role either books the op or has established that the entry is not admitted yet
     for p in paths:
         knows = any(isinstance(c, tuple) and c[0] == 'call' and str(c[1]).endswith('::load') and 'is_admitted' in fmt(c) and
-                    any(y == ('param', pidx.get('entry', 3)) for y in subterms(c)) for c, v in p.conds)
+                    any(y == ur['entry_t'] for y in subterms(c)) for c, v in p.conds)
         if not knows:
             r.instance(function=nid, event='path-without-admitted-test', conds=[fmt(c)[:50] for c, v in p.conds][:4])
             r.violate(nid, 'op-dropped-before-admitted-test', 'is_admitted', 'a path of the write-op consumer returns without having tested whether the '
